@@ -380,6 +380,13 @@ func (v *VM[I, O, A]) setLastAccepted(lastAcceptedBlock *StatefulBlock[I, O, A])
 	v.acceptedBlocksByID.Put(v.lastAcceptedBlock.ID(), v.lastAcceptedBlock)
 }
 
+func (v *VM[I, O, A]) getLastAcceptedBlock() *StatefulBlock[I, O, A] {
+	v.metaLock.Lock()
+	defer v.metaLock.Unlock()
+
+	return v.lastAcceptedBlock
+}
+
 func (v *VM[I, O, A]) setLastProcessed(lastProcessedBlock *StatefulBlock[I, O, A]) {
 	v.metaLock.Lock()
 	defer v.metaLock.Unlock()
@@ -426,8 +433,10 @@ func (v *VM[I, O, A]) GetBlockByHeight(ctx context.Context, height uint64) (*Sta
 	ctx, span := v.tracer.Start(ctx, "VM.GetBlockByHeight")
 	defer span.End()
 
-	if v.lastAcceptedBlock.Height() == height {
-		return v.lastAcceptedBlock, nil
+	// Read the last accepted block once: Accept replaces it concurrently (under metaLock), and
+	// comparing the height of one value but returning another hands out the wrong block.
+	if lastAccepted := v.getLastAcceptedBlock(); lastAccepted.Height() == height {
+		return lastAccepted, nil
 	}
 	var blkID ids.ID
 	if fetchedBlkID, ok := v.acceptedBlocksByHeight.Get(height); ok {
@@ -523,8 +532,8 @@ func (v *VM[I, O, A]) GetBlockIDAtHeight(ctx context.Context, blkHeight uint64) 
 	ctx, span := v.tracer.Start(ctx, "VM.GetBlockIDAtHeight")
 	defer span.End()
 
-	if blkHeight == v.lastAcceptedBlock.Height() {
-		return v.lastAcceptedBlock.ID(), nil
+	if lastAccepted := v.getLastAcceptedBlock(); blkHeight == lastAccepted.Height() {
+		return lastAccepted.ID(), nil
 	}
 	if blkID, ok := v.acceptedBlocksByHeight.Get(blkHeight); ok {
 		return blkID, nil
